@@ -5348,11 +5348,11 @@ CComplex FPProc::GetFluxLinkage(int circnum) const
                 // if there is at least one nonzero conductivity block, we can use
                 // the GetParallelLinkage routine, which is more or less driving
                 // all the blocks with a ficticious voltage gradient.
-                if (flag) FluxLinkage=GetParallelLinkage(i);
+                if (flag) FluxLinkage=GetParallelLinkage(circnum);
                 // otherwise, treat the "punt" case, where every part of the
                 // parallel "circuit" is just assumed to have the same applied
                 // current density;
-                else FluxLinkage=GetParallelLinkageAlt(i);
+                else FluxLinkage=GetParallelLinkageAlt(circnum);
             }
         }
     }
